@@ -68,6 +68,11 @@ pub fn docs_core() -> Vec<Value> {
         json!({"a": [1, 0, -1], "b": 0}),
         json!({"a": {"b": [1, 2]}, "b": {"a": 3, "b": 4}}),
         json!({"a": [{"a": 0, "b": 1}, {"a": 1, "b": 0}, {"a": 1, "b": 1}]}),
+        // blank (whitespace-only) strings are truthy; non-identifier and non-ASCII keys test key order
+        json!({"a": " ", "b": "\u{a0}"}),
+        json!([" ", "\t", "\n", ""]),
+        json!({"b": 1, "a": 2, "B": 3, "_": 4, "é": 5, "aa": 6, "": 7, "a b": 8}),
+        json!([{"a": [null, 1]}, {"b": 2}, {"a": null}, {"a": [[2], null]}]),
     ]
 }
 
